@@ -36,8 +36,9 @@ def rule_label(ctx):
     for n in walk_no_nested(init):
         if isinstance(n, ast.Assign) and isinstance(n.targets[0], ast.Attribute) and n.targets[0].attr in ("read_timeout", "write_timeout"):
             attr = n.targets[0].attr
-            ok = isinstance(n.value, ast.BoolOp) and isinstance(n.value.op, ast.Or) and [src(v) for v in n.value.values] == [attr, "timeout"]
-            ctx.ob("C16.LABEL", n, f"self.{attr} = {attr} or timeout", ok, f"{attr} computed as `{src(n.value)}`", construct=f"init:{attr}<-{src(n.value)}")
+            val = expand(p, n.value, init)      # computed into a local first
+            ok = isinstance(val, ast.BoolOp) and isinstance(val.op, ast.Or) and [src(v) for v in val.values] == [attr, "timeout"]
+            ctx.ob("C16.LABEL", n, f"self.{attr} = {attr} or timeout", ok, f"{attr} computed as `{src(val)}`", construct=f"init:{attr}<-{src(val)}")
     ctx.floor("C16.LABEL", 6)
     wt_outer = p.module_funcs.get(("common.py", "_with_timeout"))
     if wt_outer is None:
